@@ -202,7 +202,7 @@ Lemma get_body_string_no_fault o : get_body_string cfg ctype fr s = inr o -> no_
 Proof.
   unfold get_body_string. destruct (body_stage cfg ctype fr s) as [[body m]|o'] eqn:E.
   - destruct (content_length fr) as [cl|]; [|now elim cl_int].
-    destruct (Z.of_nat (c_memfile cfg) <? cl); [intros [= <-]; apply raise_no_fault|].
+    cbv zeta. destruct (Z.of_nat (c_memfile cfg) <? _); [intros [= <-]; apply raise_no_fault|].
     destruct (Z.of_nat (c_memfile cfg) <? _); [intros [= <-]; apply raise_no_fault | discriminate].
   - intros [= <-]. now apply (body_stage_no_fault o').
 Qed.
